@@ -182,6 +182,10 @@ class DBM:
 # ---------------------------------------------------------------------------------------------------
 # linear forms of AST expressions:  (var | 'Z', const)   meaning  var + const
 # ---------------------------------------------------------------------------------------------------
+PURE_FORWARDING = ('make_pair', 'make_tuple', 'forward', 'tie', 'min', 'max')
+PTR_VARS = None      # hook: fn -> set of local ids of pointer variables modelled as integer "row" variables (packed storage)
+
+
 def var_of(fn, n):
     """Variable key of a leaf expression, or None."""
     n = fn.strip(n)
@@ -189,6 +193,8 @@ def var_of(fn, n):
         return None
     if n['k'] == 'DeclRefExpr' and 'var' in n:
         lv = fn.locals[n['var']]
+        if PTR_VARS is not None and lv['type'].endswith('*') and n['var'] in PTR_VARS(fn):
+            return ('v', n['var'])
         if lv['type'].replace(' &', '') in INT_TYPES and not lv.get('ref'):
             return ('v', n['var'])
         # an integer reference PARAMETER is a variable of its own when it is the only integer reference parameter (it can
@@ -480,6 +486,8 @@ def killed_vars(fn, n):
         for dd in n.get('decls', []):
             if 'var' in dd:
                 out.add(('v', dd['var']))
+    if k == 'CallExpr' and n.get('callee') in PURE_FORWARDING and (n.get('cq') or 'std::').startswith('std::'):
+        return out      # forwarding-reference parameters of std helpers that only read their arguments
     if k in ('CallExpr', 'CXXMemberCallExpr', 'CXXOperatorCallExpr', 'CXXConstructExpr', 'CXXTemporaryObjectExpr'):
         pm = n.get('pmut')
         args = fn.call_args(n)
@@ -488,6 +496,8 @@ def killed_vars(fn, n):
             v = var_of(fn, a)
             jj = j - off
             if v is not None and not (jj < 0 and pm is not None) and (pm is None or jj >= len(pm) or pm[jj] != 'C' or n.get('unresolved')):
+                if pm is not None and 0 <= jj < len(pm) and pm[jj] == 'P' and not n.get('unresolved') and v[0] == 'v' and fn.locals[v[1]]['type'].endswith('*'):
+                    continue
                 out.add(v)
         if k == 'CXXMemberCallExpr' and n.get('org') == 'S' and not n.get('cconst'):
             o = fn.call_object(n)
@@ -542,6 +552,8 @@ def step(fn, d, n):
                 else:
                     d.forget(v)
         return d
+    if k == 'CallExpr' and n.get('callee') in PURE_FORWARDING and (n.get('cq') or 'std::').startswith('std::'):
+        return d
     if k in ('CallExpr', 'CXXMemberCallExpr', 'CXXOperatorCallExpr', 'CXXConstructExpr', 'CXXTemporaryObjectExpr'):
         pm = n.get('pmut')
         args = fn.call_args(n)
@@ -554,6 +566,8 @@ def step(fn, d, n):
             if v is not None and (pm is None or jj < 0 or jj >= len(pm) or pm[jj] != 'C' or n.get('unresolved')):
                 if jj < 0 and pm is not None:
                     continue      # an integer variable cannot be the object of a member operator
+                if pm is not None and 0 <= jj < len(pm) and pm[jj] == 'P' and not n.get('unresolved') and fn.locals[v[1]]['type'].endswith('*'):
+                    continue      # a modelled pointer handed over BY VALUE: the callee may change the pointee, not the pointer
                 d.forget(v)
         # a non-const member call on this object may change integer fields
         if k == 'CXXMemberCallExpr' and n.get('org') == 'S' and not n.get('cconst'):
